@@ -1,6 +1,172 @@
+import Model.TlsAuth
 import Driver.Util
 namespace Driver.C20
-/-- placeholder: replaced when the property's model is built -/
-def step (_ : Unit) (_ : List String) : Unit × String := ((), "unimplemented")
+open Util TlsAuth
+
+def bit (b : Bool) : String := if b then "1" else "0"
+
+def snExample : List UInt8 := strBytes "sn.example"
+
+/-- `nil` or `I<0|1>S<0|1>R<0|1>C<n>` -/
+def parseCfg (s : String) : Option (Option UserCfg) :=
+  if s == "nil" then some none else
+  match s.toList with
+  | 'I' :: i :: 'S' :: sn :: 'R' :: r :: 'C' :: n =>
+    match (String.ofList n).toNat? with
+    | some k => some (some { insecure := i == '1', serverName := if sn == '1' then snExample else [],
+                              hasRootCAs := r == '1', nCerts := k })
+    | none => none
+  | _ => none
+
+/-- `absent`, `valid`, `unreadable/<how>`, `unparsable/<how>`, `foreign` -/
+def parseFileSt (s : String) : Option FileSt :=
+  match (s.splitOn "/").head! with
+  | "absent" => some .absent
+  | "valid" => some .valid
+  | "unreadable" => some .unreadable
+  | "unparsable" => some .unparsable
+  | "foreign" => some .foreign
+  | _ => none
+
+def showErr : TlsErr → String
+  | .caOpen => "err:ca-open"
+  | .caParse => "err:ca-parse"
+  | .keyPair => "err:keypair"
+
+def parseBool (s : String) : Option Bool :=
+  match s with
+  | "0" => some false | "1" => some true | "false" => some false | "true" => some true | _ => none
+
+def parseFrame (s : String) : Option SFrame :=
+  match s.splitOn ":" with
+  | ["sup"] => some .supported
+  | ["rdy"] => some .ready
+  | ["chal"] => some .authChallenge
+  | ["succ"] => some .authSuccess
+  | ["err"] => some .error
+  | ["other"] => some .other
+  | ["auth", h] => (parseHex h).map .authenticate
+  | _ => none
+
+def parseList (s : String) : Option (List (List UInt8)) :=
+  if s == "none" then some [] else (s.splitOn ",").mapM parseHex
+
+/-- `none` or `pw:<user>:<pass>:<allowed>` -/
+def parseAuth (s : String) : Option (Option PwAuth) :=
+  match s.splitOn ":" with
+  | ["none"] => some none
+  | ["pw", u, p, a] => match parseHex u, parseHex p, parseList a with
+    | some u, some p, some a => some (some { user := u, pass := p, allowed := a })
+    | _, _, _ => none
+  | _ => none
+
+def showSent : Sent → String
+  | .options => "options"
+  | .startup => "startup"
+  | .authResponse t => "authresp:" ++ toHex t
+
+def showOutcome : Outcome → String
+  | .ready => "ready"
+  | .errProtocol => "err:protocol"
+  | .errServer => "err:server"
+  | .errAuthRequired => "err:auth-required"
+  | .errUnapproved => "err:unapproved"
+  | .errAuthFrame => "err:auth-frame"
+  | .errClosed => "err:closed"
+  | .crash => "crash"
+
+def parseDocCfg (s : String) : Option (Option Bool) :=
+  match s with
+  | "nil" => some none | "false" => some (some false) | "true" => some (some true) | _ => none
+
+/-- ops:
+  tls <cfg> <ehv> <ca> <cert> <key> <spare>  → ok insecure= sn= rootcas= certs= | err:…, then callerpool=, backing=
+  sni <insecure> <serverName> <addr>         → <ServerName> cloned=<0|1>
+  join <host> <port>                         → address (net.JoinHostPort as used by HostnameAndPort)
+  approve <class> <allowed…|none>            → true|false
+  challenge <user> <pass> <allowed> <class>  → token | err
+  hs <auth> <frames…>                        → sent=… outcome=…
+  doc <file> <nil|false|true> <false|true>   → verify | noverify | missing (documented table) -/
+def step (_ : Unit) (ws : List String) : Unit × String :=
+  ((), match ws with
+  | ["tls", cfg, ehv, ca, cert, key, spare] =>
+    match parseCfg cfg, parseBool ehv, parseFileSt ca, parseFileSt cert, parseFileSt key, parseBool spare with
+    | some cfg, some ehv, some ca, some cert, some key, some spare =>
+      let o : SslOpts := { cfg := cfg, enableHostVerification := ehv, ca := ca, cert := cert, key := key }
+      let r := match setupTLSConfig o with
+        | .ok c => s!"ok insecure={bit c.insecure} sn={toHex c.serverName} rootcas={bit c.hasRootCAs} certs={c.nCerts}"
+        | .error e => showErr e
+      let pool := match cfg with
+        | none => "none"
+        | some c => if !c.hasRootCAs then "none" else if callerPoolMutated o then "grew" else "same"
+      let backing := if callerBackingWritten o spare then "written" else "clean"
+      s!"{r} callerpool={pool} backing={backing}"
+    | _, _, _, _, _, _ => "bad-op"
+  | ["sni", i, sn, addr] => match parseBool i, parseHex sn, parseHex addr with
+    | some i, some sn, some addr =>
+      let r := tlsConfigForAddr i sn addr
+      s!"{toHex r.1} cloned={bit r.2}"
+    | _, _, _ => "bad-op"
+  | ["join", h, p] => match parseHex h, parseHex p with
+    | some h, some p => toHex (joinHostPort h p)
+    | _, _ => "bad-op"
+  | ["approve", c, a] => match parseHex c, parseList a with
+    | some c, some a => toString (approve c a)
+    | _, _ => "bad-op"
+  | ["challenge", u, p, a, c] => match parseHex u, parseHex p, parseList a, parseHex c with
+    | some u, some p, some a, some c => match challenge { user := u, pass := p, allowed := a } c with
+      | some t => toHex t
+      | none => "err"
+    | _, _, _, _ => "bad-op"
+  | "hs" :: a :: fs => match parseAuth a, fs.mapM parseFrame with
+    | some a, some fs =>
+      let r := handshake a fs
+      "sent=" ++ ",".intercalate (r.1.map showSent) ++ " outcome=" ++ showOutcome r.2
+    | _, _ => "bad-op"
+  -- property-oracle ops (spec-backed): the answer is what the PROPERTY demands; the theorems of Proofs/C20.lean
+  -- say the model gives the same
+  | ["verify", c, e] => match parseDocCfg c, parseBool e with            -- the documented table itself
+    | some c, some e => match Spec.documented c e with
+      | some true => "verify"
+      | some false => "noverify"
+      | none => "missing"
+    | _, _ => "bad-op"
+  | ["untouched", cfg, ehv, ca, cert, key, spare] =>                   -- C20_caller_config_untouched_partial (+ cex)
+    match parseCfg cfg, parseBool ehv, parseFileSt ca, parseFileSt cert, parseFileSt key, parseBool spare with
+    | some cfg, some ehv, some ca, some cert, some key, some spare =>
+      let o : SslOpts := { cfg := cfg, enableHostVerification := ehv, ca := ca, cert := cert, key := key }
+      let l := (if callerPoolMutated o then ["pool"] else []) ++ (if callerBackingWritten o spare then ["backing"] else [])
+      if l.isEmpty then "untouched" else "MODIFIED:" ++ "+".intercalate l
+    | _, _, _, _, _, _ => "bad-op"
+  | ["badfile", ca, cert, key] => match parseFileSt ca, parseFileSt cert, parseFileSt key with   -- C20_bad_files_error
+    | some ca, some cert, some key =>
+      match setupTLSConfig { cfg := none, enableHostVerification := true, ca := ca, cert := cert, key := key } with
+      | .ok _ => "config"
+      | .error _ => "error"
+    | _, _, _ => "bad-op"
+  | "hsnoauth" :: fs => match fs.mapM parseFrame with                    -- C20_no_auth_no_session
+    | some fs =>
+      let r := handshake none fs
+      (if r.2 = .ready then "ready" else "refused") ++ " credentials-sent=" ++
+        bit (r.1.any (fun x => match x with | .authResponse _ => true | _ => false))
+    | none => "bad-op"
+  | ["disclose", a, c] => match parseAuth a, parseHex c with             -- C20_only_approved, C20_plain_token
+    | some a, some c =>
+      let r := handshake a [.supported, .authenticate c, .authSuccess]
+      match r.1.filterMap (fun x => match x with | .authResponse t => some t | _ => none) with
+      | [] => "none"
+      | t :: _ => "token:" ++ toHex t
+    | _, _ => "bad-op"
+  | ["snihost", h, p] => match parseHex h, parseHex p with               -- C20_server_name_of_host
+    | some h, some p => toHex (tlsConfigForAddr false [] (joinHostPort h p)).1
+    | _, _ => "bad-op"
+  | ["doc", _, c, e] => match parseDocCfg c, parseBool e with
+    | some c, some e => match Spec.documented c e with
+      | some true => "verify"
+      | some false => "noverify"
+      | none => "missing"
+    | _, _ => "bad-op"
+  | _ => "bad-op")
+
 def init : Unit := ()
 end Driver.C20
